@@ -33,8 +33,8 @@ def build(kind, seed, log_interval, with_log=True, files=None, data=None):
     rs = np.random.RandomState(5)
     atoms = Atoms("Cu4", positions=rs.rand(4, 3) * 3 + 2, cell=[8, 8, 8], pbc=True)
     atoms.calc = Harmonic(k=0.3, centers=atoms.positions + 0.2, eps=0.02)
-    files = files or {"log": io.StringIO(), "traj": io.StringIO()}
-    kw = dict(seed=seed, logfile=files["log"] if with_log else None, trajectory=files["traj"], logging_interval=log_interval)
+    files = files or {"log": io.StringIO(), "traj": io.StringIO(), "rst": CountingFile()}
+    kw = dict(seed=seed, logfile=files["log"] if with_log else None, trajectory=files["traj"], restart_file=files["rst"], logging_interval=log_interval)
     if data is not None:
         # the restart path: the same files are handed to the rebuilt simulation, a calculator is attached again
         cls = {"canonical": Canonical, "gc": GrandCanonical, "fbmc": ForceBias}[kind]
@@ -56,6 +56,18 @@ def build(kind, seed, log_interval, with_log=True, files=None, data=None):
 
 class Rec:
     pass
+
+
+class CountingFile(io.StringIO):
+    """in-memory restart file: counts the rewrites (one truncate per restart-observer call)"""
+
+    def __init__(self):
+        super().__init__()
+        self.rewrites = 0
+
+    def truncate(self, *a):
+        self.rewrites += 1
+        return super().truncate(*a)
 
 
 def attach(mc, intervals, logs=None):
@@ -206,6 +218,10 @@ def run(tier: str) -> int:
             rep.violation(f"log-rows:{tag}", f"{kind}: log has {len(lines) - 1} rows, schedule says {nrows} (plan {c['plan']})", ctx)
         if log != rlog:
             rep.violation(f"log-differs-from-unsplit:{tag}", f"{kind}: log file after plan {c['plan']} differs from run({c['total']})", dict(ctx, split_log=log[-600:], unsplit_log=rlog[-600:]))
+        # the default restart observer shares the logging interval: one rewrite per scheduled call
+        nsched = len([st for st in range(c["total"] + 1) if (log_iv > 0 and st % log_iv == 0) or (log_iv < 0 and st == -log_iv)])
+        if files["rst"].rewrites != nsched:
+            rep.violation(f"restart-observer-calls:{tag}", f"{kind}: the default restart observer rewrote its file {files['rst'].rewrites} times, its schedule (interval {log_iv}, {c['total']} steps) has {nsched} calls (plan {c['plan']})", ctx)
         if has_rebuild:
             # a rebuilt simulation has a fresh calculator: whether a frame carries energy/forces depends on what the
             # calculator has cached at that moment (not on the schedule) -- compare frames and positions
